@@ -38,6 +38,7 @@ type Thread struct {
 	Steps   int
 	VC      []uint32 // vector clock (HB monitor)
 	Pending any      // value of the channel send the thread is parked in front of (nil otherwise)
+	forced  *forcedCase // a rendezvous completed by the counterpart while this thread was blocked
 }
 
 type abortT struct{}
